@@ -124,6 +124,7 @@ var c02Law = Check[c02LawCase]{
 
 type c02StreamCase struct {
 	S StreamM
+	D Delivery
 }
 
 // streamTruth checks a resume history against the generator's ground truth.
@@ -171,7 +172,7 @@ func streamTruth(s *StreamM, h *history, checkSnaps bool) error {
 }
 
 func c02StreamOracle(c c02StreamCase) error {
-	h := resumeLoop(bytes.NewReader(c.S.Bytes()), plainOpts(), len(c.S.Items)+3)
+	h := resumeLoop(c.D.reader(c.S.Bytes()), plainOpts(), len(c.S.Items)+3)
 	return streamTruth(&c.S, &h, true)
 }
 
@@ -217,9 +218,21 @@ func streamOptsDefault() StreamOpts {
 
 var c02Stream = Check[c02StreamCase]{
 	Prop: "C02", Name: "stream",
-	Gen:    func(t *rapid.T) c02StreamCase { return c02StreamCase{S: genStream(t, streamOptsDefault())} },
+	Gen: func(t *rapid.T) c02StreamCase {
+		return c02StreamCase{S: genStream(t, streamOptsDefault()), D: genDelivery(t)}
+	},
 	Oracle: c02StreamOracle,
-	Obs:    func(c c02StreamCase) Obs { return streamObs(&c.S) },
+	Obs: func(c c02StreamCase) Obs {
+		o := streamObs(&c.S)
+		if c.D.EOFWithData {
+			o.Classes = append(o.Classes, "eof_with_data")
+		}
+		if c.D.Chunk > 0 {
+			o.Classes = append(o.Classes, "chunked_delivery")
+		}
+		o.Digest = digestBytes(c.S.Bytes(), []byte(fmt.Sprint(c.D)))
+		return o
+	},
 }
 
 // ---- (3) end to end through the pp binary ----------------------------------------------
